@@ -11,7 +11,9 @@ import (
 	"bytes"
 	"fmt"
 	"math"
+	"path/filepath"
 	"reflect"
+	"runtime"
 	"sort"
 	"strconv"
 	"strings"
@@ -29,6 +31,34 @@ import (
 func TestMain(m *testing.M) { pbt.Main(m, "C13") }
 
 func TestReplay(t *testing.T) { pbt.Replay(t) }
+
+// noPanic converts an unexpected panic inside Run into a violation whose message
+// is the same on every run (panic value + first golib frame). pbt would do the
+// conversion itself, but it appends a stack trace whose argument words differ
+// between runs, and rapid does not shrink a failure it cannot reproduce verbatim.
+func noPanic[C any](run func(C) *pbt.Result) func(C) *pbt.Result {
+	return func(c C) (r *pbt.Result) {
+		defer func() {
+			if p := recover(); p != nil {
+				site := "?"
+				pcs := make([]uintptr, 32)
+				frames := runtime.CallersFrames(pcs[:runtime.Callers(2, pcs)])
+				for {
+					f, more := frames.Next()
+					if strings.Contains(f.Function, "whatap/golib") {
+						site = fmt.Sprintf("%s (%s:%d)", f.Function, filepath.Base(f.File), f.Line)
+						break
+					}
+					if !more {
+						break
+					}
+				}
+				r = pbt.Fail("unexpected panic: %v, raised in %s", p, site)
+			}
+		}()
+		return run(c)
+	}
+}
 
 // ---- elements ----------------------------------------------------------------------------
 //
@@ -818,7 +848,7 @@ var specLists = pbt.Register(pbt.Spec[ListCase]{
 	Prop: "C13", Name: "lists",
 	Rule:  "histories of 1-50 ops (Add*/Set* in all five argument flavours where the conversion to the element type is exact, Get* in all flavours + GetValue, AddAll, AddAllArray, ToArray, Write/Read) on Int/Long/Float/Double/String lists with initial capacity default/0..40 and indices in [-2, size+capacity+2], against a slice model; an out-of-range index must panic in every getter and setter; Write bytes must equal the reference (24-bit count + decimal/float/double/text elements); non-trivial = the backing array was re-allocated while the list held elements (capacity growth step crossed, observed by reflection); distinct by whole history",
 	Quick: 20000, Thorough: 3000000,
-	Draw: drawListCase, Run: runListCase,
+	Draw: drawListCase, Run: noPanic(runListCase),
 })
 
 func TestLists(t *testing.T) { specLists.Check(t) }
@@ -1048,7 +1078,7 @@ var specSorting = pbt.Register(pbt.Spec[SortCase]{
 	Prop: "C13", Name: "sorting",
 	Rule:  "lists of 0-300 values (lengths on both sides of sort.Sort's insertion-sort limit) over an alphabet of 1-6 values (extremes, ±0, ±Inf, no NaN, empty string) so duplicates abound; 80% with a child list of any of the five types (numeric children within ±2^53); all four direction combinations; Sorting and SortingAnyList results must be a permutation of 0..n-1 whose consecutive elements are ordered by (primary, then child) in the requested directions; lists unchanged; Filtering(result) is the list in that order; non-trivial = >= 2 equal primary keys; distinct by whole case",
 	Quick: 15000, Thorough: 2000000,
-	Draw: drawSortCase, Run: runSortCase,
+	Draw: drawSortCase, Run: noPanic(runSortCase),
 })
 
 func TestSorting(t *testing.T) { specSorting.Check(t) }
@@ -1151,7 +1181,7 @@ var specFiltering = pbt.Register(pbt.Spec[FilterCase]{
 	Prop: "C13", Name: "filtering",
 	Rule:  "typed list of 0-30 elements and an index list of 0..2n+5 entries (repeats, more indices than elements; 1 case in 8 has one entry out of range, which must be reported by a panic); Filtering(idx)[i] == l[idx[i]] in every exact getter flavour, same list type, size len(idx), source unchanged; non-trivial = >= 2 indices; distinct by whole case",
 	Quick: 10000, Thorough: 1000000,
-	Draw: drawFilterCase, Run: runFilterCase,
+	Draw: drawFilterCase, Run: noPanic(runFilterCase),
 })
 
 func TestFiltering(t *testing.T) { specFiltering.Check(t) }
@@ -1370,7 +1400,7 @@ var specLinked = pbt.Register(pbt.Spec[LLCase]{
 	Prop: "C13", Name: "linkedlist",
 	Rule:  "LinkedList histories of 1-60 ops (add-first/last, Add, put-before the i-th live node, remove the i-th live node, remove-first/last incl. on empty, clear, to-array, first/next/last walk, to-string) with int values from a small alphabet against a slice model; return values and Size() after every step; finally the list is drained from the back (checks the prev links); non-trivial = a put-before or node removal strictly inside a list of >= 3 nodes; distinct by whole history",
 	Quick: 10000, Thorough: 1000000,
-	Draw: drawLLCase, Run: runLLCase,
+	Draw: drawLLCase, Run: noPanic(runLLCase),
 })
 
 func TestLinkedList(t *testing.T) { specLinked.Check(t) }
